@@ -28,12 +28,15 @@ def tasks(tier):
         for n in lens:
             if n >= 0:
                 ts.append(Task('verifHarness_C08_D', [2, shape, n]))
+                if tier != 'quick' or n in (sn, se + 1):
+                    ts.append(Task('verifHarness_C08_D', [3, shape, n]))
     # F: FixFrame after edits (root package)
     for shape in range(4):
         for sl in ([2] if shape != 1 else [0, 2, 5]):
             ts.append(Task('verifHarness_C08_fix', [1, shape, 0, sl], pkg='.'))
             ts.append(Task('verifHarness_C08_fix', [2, shape, 0, sl], pkg='.'))
             ts.append(Task('verifHarness_C08_fix', [2, shape, 1, sl], pkg='.'))
+            ts.append(Task('verifHarness_C08_fix', [2, shape, 2, sl], pkg='.'))
     return ts
 
 
@@ -43,14 +46,14 @@ def required_reach(tier):
 
 def bounds(tier):
     return {'no_dialect': 'v1 / v2 / signed v2, payload lengths 0,1,3,255 (quick) or 0,1,2,3,9,64,254,255 (thorough), every byte symbolic',
-            'fixframe': 'received frame with arbitrary header and stale checksum/signature, message = arbitrary value of each harness shape (the edit), FixFrame, forward, next hop with InKey = OutKey: v1, v2 unsigned, v2 signed with an outgoing key',
+            'fixframe': 'received frame with arbitrary header and stale checksum/signature, message = arbitrary value of each harness shape (the edit), FixFrame, forward, next hop with InKey = OutKey: v1, v2 unsigned, v2 signed with an outgoing key, v2 unsigned on a node that has an outgoing key (next hop without a key); the forwarded stream holds nothing but the frame',
             'dialect': 'harness dialect (4 shapes); v1 at the exact base length; v2 payload lengths around base/extended size and +1,+2 (quick) / '
                        'every length 0..extended+2 (thorough); every payload byte symbolic (so canonical, zero-padded, '
-                       'bytes-after-NUL and unknown-trailing-bytes encodings are all included); checksum = spec value'}
+                       'bytes-after-NUL and unknown-trailing-bytes encodings are all included); checksum = spec value; signed v2 frames (arbitrary signature block, hops without a key) at the base and extended+1 lengths (quick) / every length (thorough)'}
 
 
 OUTSIDE = ['shipped message types (per-type layout is C03/C04)',
-           'signed frames through a dialect hop (the signature covers the payload, which re-encoding may change; the property requires the checksum only)']
+           'validity of the signature of a signed frame after a dialect hop (the signature covers the payload, which re-encoding may change; the property requires the checksum only, which is checked)']
 STUBS = ['x25 summarised by crcstep in the dialect harness (C02 lemmas); real x25 not involved without a dialect', 'bufio / io real source',
          'message.(*ReadWriter).Initialize executed from real SSA with reflect intrinsics']
 ASSUMPTIONS = ['go/ssa faithfully represents the compiled code', 'gosym implements SSA semantics (validated by native replay)', 'z3 is sound']
